@@ -29,7 +29,7 @@ EXHAUSTIVE_SUBSPACES = ["all non-empty observation subsets for circuits with <= 
 ASSUMPTIONS = ["reference interpreter vf/ref.py", "observations are in-domain values of the observed variable"]
 FLOOR = {"cc:fold>1:TorchEvidenceLayer": 1, "obs:partial": 1, "obs:complete": 1, "concat>=3": 1, "concat:same-twice": 1,
          "in:evidence:CategoricalLayer": 1, "in:evidence:GaussianLayer": 1, "in:evidence:PolynomialLayer": 1,
-         "in:evidence:EmbeddingLayer": 1, "in:evidence:BinomialLayer": 1, "then:integrate": 1, "values_compared": 500, "second-round-eval-mode": 1}
+         "in:evidence:EmbeddingLayer": 1, "in:evidence:BinomialLayer": 1, "then:integrate": 1, "values_compared": 500, "second-round-eval-mode": 1, "eval-mode-before-update": 1}
 
 
 def plan(tier, seed):
@@ -99,6 +99,7 @@ def run_case(case) -> Result:
     flags = C.FLAGS if case["k"] % 2 == 0 else [C.FLAGS[1], C.FLAGS[3]]
     vseed, vcls = rng.getrandbits(32), (rng.choice(["init", "normal"]) if not mono else rng.choice(["init", "posonly"]))
     pool = gen.random_inputs(nrng, domains, 5)
+    eval_first = case["k"] % 3 == 1
     for fold, opt in flags:
       comp = C.new_compiler(sr, fold, opt)
       if C.compile_in(res, comp, c, f"operand [{C.flag_name(fold, opt)}]") is None:
@@ -121,6 +122,9 @@ def run_case(case) -> Result:
               ce = C.compile_in(res, comp, e, f"evidence over {z} [{tag}]")
               if ce is None:
                   continue
+              if eval_first:  # inference mode from the first evaluation on; round 2 follows an in-place update
+                  ce.eval()
+                  res.features.add("eval-mode-before-update")
               res.features |= {f for f in structs.compiled_features(ce) if "Evidence" in f}
               Xo = pool.copy().astype(np.float64 if any(isinstance(v, float) for v in obs.values()) or pool.dtype.kind == "f" else pool.dtype)
               for v, val in obs.items():
